@@ -69,7 +69,7 @@ ASSUMPTIONS = ['stdlib datetime (proleptic Gregorian day count) for instants '
                'descending time axes are left to C16 (time2idx front-end)',
                'datetype != "datetime" (numpy datetime64 output) not '
                'generated']
-BUDGET = {'quick': dict(examples=4800, max_s=200),
+BUDGET = {'quick': dict(examples=12800, max_s=200),
           'thorough': dict(examples=200000, max_s=3000)}
 EXHAUSTIVE_NOTE = ('thorough tier: every (year 1970-2100, day of year, hour '
                    '0-23) as TFLAG rows at minute/second patterns 00:00, '
@@ -817,10 +817,13 @@ def check_cf(spec, r):
     ia = np.atleast_1d(np.ma.getdata(idx))
     im = np.atleast_1d(np.ma.getmaskarray(idx))
     if ia.shape != (n,) or im.any() or ia.tolist() != list(range(n)):
+        sym = ''
+        if spec['dtype'] == 'i4' and max(stored) - min(stored) >= 2 ** 31:
+            sym = '/int32-span>=2^31'
         r.fail('cf-time2idx', 'time2idx(getTimes()) = %r, expected 0..%d '
                '(stored %r, units %r)' % (idx, n - 1, stored,
                                           units_of(spec)),
-               klass='%s/%s' % (fam, sub))
+               klass='%s/%s%s' % (fam, sub, sym))
 
 
 # ------------------------------------------------------------------ IOAPI
@@ -1123,3 +1126,10 @@ known.register('C12-synth-tstep100h', lambda spec, f:
 known.register('C12-gettimes-calendar', lambda spec, f: _fixed(spec) and
                f.clause == 'cf-gettimes' and
                f.klass.endswith('/decoded-as-gregorian'))
+# input class: int32 time variable whose span does not fit int32; symptom:
+# time2idx returns wrong (reversed) indices
+known.register('C12-time2idx-int32-span', lambda spec, f:
+               spec.get('kind') == 'cf' and spec['dtype'] == 'i4' and
+               max(spec['values']) - min(spec['values']) >= 2 ** 31 and
+               f.clause == 'cf-time2idx' and
+               f.klass.endswith('/int32-span>=2^31'))
